@@ -45,10 +45,14 @@ if not confirmed:
 rc, o = run(["git", "-C", "/repo", "status", "--porcelain"]); assert o.strip() == "", "/repo is not clean"
 rc, o = run(["git", "-C", "/repo", "apply", str(patch)]); assert rc == 0, o
 t0 = time.time()
+ev_file = Path(f"/verif/evidence/{pid.upper()}.json")
+ev_saved = ev_file.read_text() if ev_file.exists() else None   # evidence must describe runs on the unchanged tree only
 try:
     rc, o = run([PY, "/verif/tools/check.py", pid.upper(), "--tier", tier], cwd="/verif")
 finally:
     run("git -C /repo checkout -- . && git -C /repo clean -fdq", cwd="/repo")
+    if ev_saved is not None:
+        ev_file.write_text(ev_saved)
 lines = [l for l in o.splitlines() if l.startswith(("VIOLATION", "KNOWN-FINDING", "  ->"))]
 viol = [l for l in lines if l.startswith("VIOLATION")]
 print("check rc", rc, "in", round(time.time() - t0), "s"); print("\n".join(l[:400] for l in lines if not l.startswith("KNOWN")))
